@@ -285,7 +285,7 @@ func Run(cfg harness.Config, idx int, tp *tape.Tape) harness.Result {
 	}
 
 	mode := tp.Weighted([]int{3, 3, 2, 2}, "mode") // 0 chunked full, 1 EOF sweep, 2 error sweep, 3 import through fs.FS
-	enc := tp.Weighted([]int{5, 3, 2}, "encoding")  // 0 utf8, 1 utf16le+bom, 2 mutated bytes
+	enc := tp.Weighted([]int{5, 3, 2}, "encoding") // 0 utf8, 1 utf16le+bom, 2 mutated bytes
 	utf16pos := tp.Chance(1, 4, "utf16pos")
 	var data []byte
 	encName := "utf8"
@@ -455,11 +455,11 @@ func clip(s string) string {
 // ---------------------------------------------------------------- imports through fs.FS
 
 type memFS struct {
-	files map[string][]byte
-	pat   *pattern // nil: one-shot delivery
-	limit map[string]int
+	files   map[string][]byte
+	pat     *pattern // nil: one-shot delivery
+	limit   map[string]int
 	openErr map[string]error
-	res   *harness.Result
+	res     *harness.Result
 }
 
 type memFile struct {
